@@ -1886,6 +1886,7 @@ class locked_ref:
         self._file: _GitFile | None = None
         self._realname: Ref | None = None
         self._deleted = False
+        self._modified = False
 
     def __enter__(self) -> Self:
         """Enter the context manager and acquire the lock.
@@ -1923,7 +1924,9 @@ class locked_ref:
           traceback: Traceback if an exception occurred
         """
         if self._file:
-            if exc_type is not None or self._deleted:
+            # Only replace the ref if a new value was actually written: an
+            # untouched lock file is empty and would destroy the ref.
+            if exc_type is not None or self._deleted or not self._modified:
                 self._file.abort()
             else:
                 self._file.close()
@@ -1968,6 +1971,7 @@ class locked_ref:
         self._file.truncate()
         self._file.write(new_ref + b"\n")
         self._deleted = False
+        self._modified = True
 
     def set_symbolic_ref(self, target: Ref) -> None:
         """Make this ref point at another ref.
@@ -1983,6 +1987,7 @@ class locked_ref:
         self._file.truncate()
         self._file.write(SYMREF + target + b"\n")
         self._deleted = False
+        self._modified = True
 
     def delete(self) -> None:
         """Delete the ref file while holding the lock."""
